@@ -4,6 +4,12 @@
    version, then writes; Snapshot pushes a revision (id, journal length); RevertToSnapshot(id) walks the journal
    backwards undoing every entry and drops the revisions above.  `saved` is the history variable that makes
    "restores exactly" checkable: Revert must re-establish the copy taken by the Snapshot that created the revision.
+   Seal finishes the block (MergeChangeLogs, Finalise: the roots of every account that keeps a published log are
+   recomputed from the trie contents and root logs are published, Save).  `clean` / `cleanpub` are the history variables
+   that make "reverted work leaves no trace" checkable beyond the getters: the sealed block - roots and published
+   logs included - must be the block of a run that executed only the surviving journal entries.  `ghost` records what
+   a revert leaves behind in the caches of the real code (empty dirty entries, dirty code); the design (Dv = {}) never
+   looks at it, the deviations that reproduce /repo do.
    The behaviours of this module (one block executed on top of the committed state `base`) are replayed on a real
    account.Manager; TraceJournal.tla validates what the real code returned.
    Dv = {} is the design the property demands; a non-empty Dv is a negative control reproducing /repo's code. *)
